@@ -40,7 +40,11 @@ structure ChnaEntry where
 def ChnaEntry.enc (e : ChnaEntry) : Bytes := le 2 e.trackIndex ++ e.rest
 
 /-- `ChnaChunk.numTracks` = `len(set(x.trackIndex for x in audioIDs))`. -/
-def numTracks (es : List ChnaEntry) : Nat := (es.map (·.trackIndex)).eraseDups.length
+def countDistinct : List Nat → Nat
+  | [] => 0
+  | x :: xs => if x ∈ xs then countDistinct xs else countDistinct xs + 1
+
+def numTracks (es : List ChnaEntry) : Nat := countDistinct (es.map (·.trackIndex))
 
 /-- chunk data of `ChnaChunk.asByteArray()` -/
 def chnaPayload (es : List ChnaEntry) : Bytes :=
@@ -128,21 +132,35 @@ def stepW (s : WState) : WOp → WState
 
 def runW (s : WState) (ops : List WOp) : WState := ops.foldl stepW s
 
-/-- `Bw64Writer.close`: the final buffer content. -/
-def closeW (s : WState) : Bytes :=
-  -- data chunk padding
-  let s1 := if s.dataBytes % 2 = 1 then { s with buf := s.buf ++ [0] } else s
-  -- late chunks
-  let s2 := if !s1.chnaW && s1.chna.isSome then s1.writeChna else s1
-  let s3 := if !s2.axmlW && truthy s2.axml then s2.writeAxml else s2
-  let s4 := if !s3.bextW && truthy s3.bext then s3.writeBext else s3
-  let riffSize := s4.buf.length - 8                 -- _calc_riff_chunk_size
-  if riffSize ≥ 2 ^ 32 || s4.force then
-    -- _update_bw64_chunk, _overwrite_junk_with_ds64_chunk (JUNK chunk id is at offset 12)
-    patchAt (patchAt s4.buf 0 idBW64) 12 (ds64Chunk riffSize s4.dataBytes)
+/-- `if self._dataBytesWritten & 1: self._buffer.write(b'\\0')` -/
+def WState.padData (s : WState) : WState :=
+  if s.dataBytes % 2 = 1 then { s with buf := s.buf ++ [0] } else s
+
+/-- `if not self._chnaChunkWritten and self._chna: self._write_chna_chunk()` -/
+def WState.lateChna (s : WState) : WState := if !s.chnaW && s.chna.isSome then s.writeChna else s
+
+/-- `if not self._axmlChunkWritten and self._axml: self._write_axml_chunk()` -/
+def WState.lateAxml (s : WState) : WState := if !s.axmlW && truthy s.axml then s.writeAxml else s
+
+/-- `if not self._bextChunkWritten and self._bext: self._write_bext_chunk()` -/
+def WState.lateBext (s : WState) : WState := if !s.bextW && truthy s.bext then s.writeBext else s
+
+/-- first half of `Bw64Writer.close`: data chunk padding and the chunks not yet written. -/
+def lateW (s : WState) : WState := s.padData.lateChna.lateAxml.lateBext
+
+/-- second half of `Bw64Writer.close`: RIFF vs BW64 decision and size back-patching; the final
+buffer content. -/
+def finalizeW (s : WState) : Bytes :=
+  let riffSize := s.buf.length - 8                 -- _calc_riff_chunk_size
+  if riffSize ≥ 2 ^ 32 || s.force then
+    -- _update_bw64_chunk, _overwrite_junk_with_ds64_chunk (the JUNK chunk id is at offset 12)
+    patchAt (patchAt s.buf 0 idBW64) 12 (ds64Chunk riffSize s.dataBytes)
   else
     -- _update_riff_chunk_size, _update_data_chunk_size
-    patchAt (patchAt s4.buf 4 (le 4 riffSize)) (s4.dataPos + 4) (le 4 s4.dataBytes)
+    patchAt (patchAt s.buf 4 (le 4 riffSize)) (s.dataPos + 4) (le 4 s.dataBytes)
+
+/-- `Bw64Writer.close`: the final buffer content. -/
+def closeW (s : WState) : Bytes := finalizeW (lateW s)
 
 /-- The bytes in the buffer if the writer is abandoned without `close`. -/
 def unclosedFile (fmt : Fmt) (chna : Option (List ChnaEntry)) (axml bext : Option Bytes) (force : Bool)
